@@ -31,6 +31,9 @@ RULE = ("generated: benign programs of 1-12 statements (tools/faults.benign_prog
         "cross-file: %d kinds whose diagnostic carries locations in TWO files (duplicate exports by '::', '==', '.extern', '.extern all'; second '.link'), "
         "under file names sorting both ways (a/b, z/b, lib/main, main/lib), both link orders where the kind allows it, and with the culprit in an included file; "
         "the leading locations of the first diagnostic must be (culprit token in its file, previous declaration in the other file) in the report site's order; "
+        "include trees (real files in the CLI subset): the same written path (.include 'defs.mac') reached from a/part.mac and b/part.mac, or from main.mac and lib/second.mac, "
+        "names two different files; a fault in the second, the first or both must be reported in the RESOLVED file; "
+        "every non-empty span of every diagnostic must start on a non-blank character; "
         "three file roles: the only linked file, the second of two linked files, a file pulled in by '.include' (in-memory file map). "
         "thorough: full product programs x kinds x positions x roles; quick: all kinds x all positions of 3 programs with role and lead "
         "rotating so that every kind meets every role. All spans of all diagnostics are judged. A seeded subset runs the real CLI with "
@@ -133,6 +136,69 @@ def build_cross(kind, names, order, pos_o, pos_c, lead, tag, rng_tag, include=Fa
             "expected": [(cname, cspan[0], cspan[1]), (oname, ospan[0], ospan[1])]}
 
 
+TREE_VARIANTS = ("second-only", "first-only", "both", "linked-dirs")
+
+
+def build_tree(variant, kind, kind2, stmts, pos, lead, tag, rng_tag):
+    """Include trees where the SAME WRITTEN PATH names different files from different directories:
+         main.mac -> a/part.mac -> "defs.mac" (= a/defs.mac)   and   main.mac -> b/part.mac -> "defs.mac" (= b/defs.mac)
+       or two linked files main.mac and lib/second.mac each including "defs.mac".
+       A diagnostic must name the RESOLVED file and the position inside that file."""
+    clean = "".join(x + "\n" for x in faults.benign_program(random.Random(rng_tag + 3), 3, tag + "k"))
+    part = "\tnop\n\t.include \"defs.mac\"\t; локальные определения\n\tnop\n"
+    if variant == "linked-dirs":
+        d1, d2 = VDIR, VDIR + "/lib"
+        files = [(VDIR + "/main.mac", part), (VDIR + "/lib/second.mac", part.replace("nop", "clc"))]
+        fs = {}
+    else:
+        d1, d2 = VDIR + "/a", VDIR + "/b"
+        files = [(VDIR + "/main.mac", "\t.include \"a/part.mac\"\n\t.include \"b/part.mac\"\n")]
+        fs = {d1 + "/part.mac": part, d2 + "/part.mac": part}
+    p2 = faults.plant(kind, stmts, pos, lead=lead, tag=tag)
+    p1 = faults.plant(kind2, faults.benign_program(random.Random(rng_tag + 5), 2, tag + "j"), 1, lead="\t", tag=tag + "j")
+    also = []
+    if variant in ("second-only", "linked-dirs"):
+        fs[d1 + "/defs.mac"], fs[d2 + "/defs.mac"] = clean, p2.source
+        P, pfile = p2, d2 + "/defs.mac"
+    elif variant == "first-only":
+        fs[d1 + "/defs.mac"], fs[d2 + "/defs.mac"] = p2.source, clean
+        P, pfile = p2, d1 + "/defs.mac"
+    else:   # both: the first file's fault leads, the second file's must be reported too
+        fs[d1 + "/defs.mac"], fs[d2 + "/defs.mac"] = p1.source, p2.source
+        P, pfile = p1, d1 + "/defs.mac"
+        also = [(p2.ident, d2 + "/defs.mac", p2.offset, p2.end)]
+        fs.update({os.path.join(d1, k2): v for k2, v in p1.fs.items()})
+    fs.update({os.path.join(os.path.dirname(pfile) if variant != "both" else d2, k2): v for k2, v in p2.fs.items()})
+    texts = dict(files)
+    texts.update({k2: v for k2, v in fs.items() if isinstance(v, str)})
+    exp = [(pfile, P.offset, P.end)] + [(pfile, a, b) for a, b in P.others]
+    return {"files": files, "fs": fs, "texts": texts, "pfile": pfile, "planted": P, "expected": exp, "also": also}
+
+
+def plan_tree(tier, seed):
+    """list of (variant, kind, kind2, n, pos, lead_no)"""
+    kinds = list(faults.KINDS)
+    # the first file's fault of a "both" tree is a non-critical PARSE-time kind: it is reported while a/defs.mac is parsed,
+    # before b/defs.mac is opened, so it leads whatever the second file's fault is (evaluation-time reports come last)
+    soft = [k for k in kinds if faults.KINDS[k].phase == "parse" and not faults.KINDS[k].needs_no_link]
+    out = []
+    reps = 1 if tier == "quick" else 4
+    for r in range(reps):
+        for ki, kind in enumerate(kinds):
+            n = 1 + (ki + r) % 4
+            variant = TREE_VARIANTS[(ki + r) % 4] if tier == "quick" else None
+            for v in ([variant] if variant else TREE_VARIANTS):
+                if v == "both" and faults.KINDS[kind].needs_no_link:
+                    v = "second-only"
+                out.append((v, kind, soft[(ki * 7 + r) % len(soft)], n, (ki + r) % (n + 1), (ki + 2 * r) % len(faults.LEADS)))
+        # the fault in the SECOND file for every kind in quick as well: that is where a stale parse shows
+        if tier == "quick":
+            for ki, kind in enumerate(kinds):
+                if TREE_VARIANTS[ki % 4] not in ("second-only", "linked-dirs"):
+                    out.append(("second-only" if ki % 2 else "linked-dirs", kind, soft[0], 2, ki % 3, (ki + 5) % len(faults.LEADS)))
+    return out
+
+
 def plan_cross(tier, seed):
     """list of (kind, names, order, pos_other, pos_culprit, lead_no, include)"""
     out = []
@@ -192,7 +258,7 @@ def kind_info(name):
 
 def describe(item, case):
     kind, pi, n, pos, li, role = item
-    return {"kind": kind, "expected_locations": [list(e) for e in case["expected"]], "role": role, "position": pos, "program_statements": n, "lead": faults.LEADS[li],
+    return {"kind": kind, "expected_locations": [list(e) for e in case["expected"]], "also_expected": [list(e) for e in case.get("also", [])], "role": role, "position": pos, "program_statements": n, "lead": faults.LEADS[li],
             "files": [[a, b] for a, b in case["files"]], "fs": {k: (v if isinstance(v, str) else "<directory>") for k, v in case["fs"].items()},
             "planted_file": case["pfile"], "planted_offset": case["planted"].offset, "planted_end": case["planted"].end,
             "culprit": case["planted"].source[case["planted"].offset:case["planted"].end] if case["planted"].end is not None else None}
@@ -222,11 +288,17 @@ def explore(rep, br, tier, seed):
         role = "cross:%s+%s:%s" % (names[0], names[1], order)
         items.append((kind, -1, 3, pc, li, role))
         cases.append(build_cross(kind, names, order, po, pc, faults.LEADS[li], "x%d" % (po * 4 + pc), seed + po * 5 + pc, include=inc))
+    # include trees: the same written path resolves to different files from different directories
+    for ti, (variant, kind, kind2, n, pos, li) in enumerate(plan_tree(tier, seed)):
+        items.append((kind, -2, n, pos, li, "tree:" + variant))
+        cases.append(build_tree(variant, kind, kind2, faults.benign_program(random.Random(seed * 31 + ti), n, "t%d" % (ti % 50)), pos,
+                                faults.LEADS[li], "t%d" % (ti % 50), seed + ti))
     outs = impl.pmap("assemble", [((c["files"],), {"fs": c["fs"]}) for c in cases], chunksize=32)
     terms, keep = [], []
     for it, c, r in zip(items, cases, outs):
         kind, pi, n, pos, li, role = it
-        phase, k_sev, k_ident = kind_info(kind)
+        phase = kind_info(kind)[0]
+        k_sev, k_ident = c["planted"].severity, c["planted"].ident     # ("both" trees lead with the first file's fault)
         rep.add_eval()
         rep.count("phase:" + phase)
         rep.count("role:" + role.split(":")[0])
@@ -246,6 +318,11 @@ def explore(rep, br, tier, seed):
         if (sev, ident) != (k_sev, k_ident):
             rep.violate("C17:%s:first-diagnostic" % kind, "the first diagnostic is not the planted fault's (%s %s expected)" % (k_sev, k_ident),
                         describe(it, c), impl={"first": [sev, ident, sp], "all": [[x[0], x[1]] for x in r["diags"]][:6]})
+            continue
+        why = also_missing(c, r)
+        if why:
+            rep.violate("C17:%s:unreported" % kind, "a fault planted in a second included file is not reported where it is: " + why, describe(it, c),
+                        impl={"all": [[x[0], x[1], x[2][:1]] for x in r["diags"]][:6]}, replay_kind="planted")
             continue
         t, why = case_term(c, r)
         if t is None:
@@ -352,7 +429,7 @@ def run_cli(rep, tier, seed, items, cases):
             results = list(ex.map(job, range(len(chosen))))
         for j, (line, rc, ppath) in enumerate(results):
             it, c = items[chosen[j]], cases[chosen[j]]
-            k_sev = kind_info(it[0])[1]
+            k_sev = c["planted"].severity
             rep.add_eval()
             rep.count("cli:" + it[5].split(":")[0])
             if line is None:
@@ -395,6 +472,14 @@ def py_linecol(text, off):
     return line, col
 
 
+def also_missing(case, res):
+    """further planted faults (include trees with several faulty files): each must be the first location of some diagnostic"""
+    for ident, f, a, b in case.get("also", []):
+        if not any(i2 == ident and sps and sps[0][0] == f and sps[0][1] == a and (b is None or sps[0][2] == b) for _, i2, sps in res["diags"]):
+            return "no '%s' diagnostic leads with the token planted at %s:%d..%s" % (ident, f, a, b)
+    return None
+
+
 def py_check(case, res):
     """None if fine, else a description"""
     p = case["planted"]
@@ -412,6 +497,11 @@ def py_check(case, res):
                 return "span outside the file or reversed: %r" % (s,)
             if "%d:%d" % py_linecol(t, s[1]) != s[3] or "%d:%d" % py_linecol(t, s[2]) != s[4]:
                 return "printed line:col is not the position of the offset: %r" % (s,)
+            if s[1] < s[2] and t[s[1]].strip() == "":
+                return "a non-empty span starts on white space: %r" % (s,)
+    why = also_missing(case, res)
+    if why:
+        return why
     first = res["diags"][0][2]
     for i, (f, a, b) in enumerate(case["expected"]):
         if i >= len(first) or first[i][0] != f or first[i][1] != a or (b is not None and first[i][2] != b):
@@ -430,6 +520,10 @@ def search_without_model(rep, tier, seed):
     for (kind, names, order, po, pc, li, inc) in plan_cross("quick", seed):
         items.append((kind, -1, 3, pc, li, "cross:%s+%s:%s" % (names[0], names[1], order)))
         cases.append(build_cross(kind, names, order, po, pc, faults.LEADS[li], "x%d" % (po * 4 + pc), seed + po * 5 + pc, include=inc))
+    for ti, (variant, kind, kind2, n, pos, li) in enumerate(plan_tree("quick", seed)):
+        items.append((kind, -2, n, pos, li, "tree:" + variant))
+        cases.append(build_tree(variant, kind, kind2, faults.benign_program(random.Random(seed * 31 + ti), n, "t%d" % (ti % 50)), pos,
+                                faults.LEADS[li], "t%d" % (ti % 50), seed + ti))
     outs = impl.pmap("assemble", [((c["files"],), {"fs": c["fs"]}) for c in cases], chunksize=32)
     for it, c, r in zip(items, cases, outs):
         why = py_check(c, r)
@@ -450,7 +544,8 @@ def replay(data):
     texts.update({p: v for p, v in fs.items() if isinstance(v, str)})
     P = faults.Planted(texts[inp["planted_file"]], ident, sev, inp["planted_offset"], inp.get("planted_end"), {}, None, [])
     exp = [tuple(e) for e in inp.get("expected_locations") or [[inp["planted_file"], inp["planted_offset"], inp.get("planted_end")]]]
-    why = py_check({"texts": texts, "pfile": inp["planted_file"], "planted": P, "expected": exp}, r)
+    why = py_check({"texts": texts, "pfile": inp["planted_file"], "planted": P, "expected": exp,
+                    "also": [tuple(e) for e in inp.get("also_expected", [])]}, r)
     print("kind %s, role %s: first diagnostic now %r" % (inp["kind"], inp["role"], r["diags"][:1]))
     if why:
         print("still wrong:", why)
